@@ -195,6 +195,7 @@ package raft
 //@   ensures lfirst(l) == old(lfirst(l))
 //@   modifies l.unstable.entries, l.unstable.offset, l.unstable.entries[len(l.unstable.entries):cap(l.unstable.entries)]
 
+//@ property C02 C03
 // The heart of C02 on one replica: an AppendEntries request that passes the log-matching test is merged
 // without ever changing an entry at or below the commit index (a conflict there panics instead), the
 // log then contains the offered entries, and the commit index only moves forward.
@@ -210,6 +211,7 @@ package raft
 //@   ensures ok ==> lastnewi == index + len(ents) && lastnewi <= llast(l) && lterm(l, index) == logTerm && l.committed == max(old(l.committed), min(committed, lastnewi))
 //@   ensures ok ==> (forall k int :: 0 <= k && k < len(ents) ==> lterm(l, index + 1 + k) == old(ents[k].Term))
 //@   modifies l.committed, l.unstable.entries, l.unstable.offset, l.unstable.entries[len(l.unstable.entries):cap(l.unstable.entries)]
+//@ property C02
 
 //@ func (l *raftLog) mustCheckOutOfBounds(lo uint64, hi uint64) error
 //@   requires lOK(l)
@@ -462,6 +464,7 @@ package raft
 //@   ensures len(r.msgs) >= old(len(r.msgs)) && (forall k int :: old(len(r.msgs)) <= k && k < len(r.msgs) ==> !isVoteResp(r.msgs[k].Type))
 //@   modifies *
 
+//@ property C01 C02
 // ---- the central per-message contract ----
 //@ func (r *raft) Step(m pb.Message) error
 //@   requires stepKeeps(r) && r.Term < 18446744073709551615 && 0 <= r.electionElapsed && r.electionElapsed < 2147483648 && 0 <= r.electionTimeout && r.electionTimeout < 2147483648
@@ -472,6 +475,7 @@ package raft
 //@   ensures old(r.isLearner) && (m.Type == pb.MsgVote || m.Type == pb.MsgPreVote) ==> (r.Vote == old(r.Vote) || r.Vote == None) && (forall k int :: old(len(r.msgs)) <= k && k < len(r.msgs) ==> !(isVoteResp(r.msgs[k].Type) && !r.msgs[k].Reject))
 //@   ensures m.Term > old(r.Term) && (m.Type == pb.MsgVote || m.Type == pb.MsgPreVote) && !bytesEq(m.Context, "CampaignTransfer") && old(r.checkQuorum && r.lead != None && r.electionElapsed < r.electionTimeout) ==> r.Term == old(r.Term) && r.Vote == old(r.Vote) && len(r.msgs) == old(len(r.msgs))
 //@   modifies *
+//@ property C01
 
 // ---- winning an election: only with a majority of granted votes, only as a candidate of this term ----
 //@ func (r *raft) becomeLeader()
